@@ -234,13 +234,23 @@ pub fn check_text(name: &str, src: &str, cfgs: &[PrintCfg], rep: &mut Report) {
 pub fn worker(ctx: &WorkerCtx) -> Report {
     let mut rep = Report::default();
     let cfgs = configs(ctx.tier.thorough());
+    // depth-3 texts (thorough only, ~400 k of them) are rendered under the quick configuration set
+    let cfgs_deep = configs(false);
     let mut idx = 0u64;
+    let mut skipped_after_budget = 0u64;
     texts(ctx.tier.thorough(), |name, src| {
         idx += 1;
         if ctx.mine(idx) {
-            check_text(&name, &src, &cfgs, &mut rep);
+            if ctx.out_of_time() {
+                skipped_after_budget += 1;
+                return;
+            }
+            check_text(&name, &src, if name.starts_with("d3/") { &cfgs_deep } else { &cfgs }, &mut rep);
         }
     });
+    if skipped_after_budget > 0 {
+        rep.capped = Some(format!("time budget: {skipped_after_budget} of this worker's texts (the last ones of the enumeration, depth 3) were not rendered"));
+    }
     // the repository's own programs
     let mut files: Vec<std::path::PathBuf> = Vec::new();
     for base in ["/repo/examples", "/repo/testsuite", "/repo/benchmarks"] {
